@@ -19,20 +19,22 @@ WORKERS = 8
 
 # ------------------------------------------------------------------------------------------------ configurations
 BASE = dict(Issuers='{"i1", "i2"}', Nodes='{"n1", "n2"}', MaxCreds=3, B=2, Validity=4, MinLeft=1, MaxTicks=2, MaxForge=1,
-            Kinds='{"sl", "net"}', RevForgeKinds='{"othersigner", "otherissuer", "wrongkey", "resubject"}',
+            Kinds='{"sl", "net"}', RevForgeKinds='{"othersigner", "otherissuer", "wrongkey", "resubject"}', Rels='{"unrelated"}',
             Srcs='{"up", "down", "forged-set", "forged-clear", "otherlist"}', ForeignTarget='"i1"', Local='TRUE',
-            ListIssuerChecked='TRUE', ListSubjectChecked='TRUE', RevIssuerChecked='TRUE', ResignBeforeExpiry='TRUE', RenewCreatedAt='FALSE',
+            ListIssuerChecked='TRUE', ListSubjectChecked='TRUE', RevIssuerChecked='TRUE', ResignBeforeExpiry='TRUE', ResignRereads='TRUE', Servers='{}', RenewCreatedAt='FALSE',
             Procs='{}', RowLock='TRUE', Hist='FALSE')
 CHECK = ("INVARIANTS TypeOK SlotsUnique SlotsOwn RevokedIsPermanent IssuerOnly EntryOnlyFromNamedList ServedListValidAndFresh\n"
          "PROPERTIES BitsMonotone KnownMonotone\n")
+ALL_RELS = '{"unrelated", "prefix", "parent", "extension"}'
 STATUS = dict(Nodes='{"n1"}', Kinds='{"sl"}', RevForgeKinds='{}')
-NET = dict(Kinds='{"net"}', MaxTicks=0, MaxForge=2, Srcs='{"up"}', ForeignTarget='"none"', Local='FALSE')
+NET = dict(Kinds='{"net"}', MaxTicks=0, MaxForge=2, Srcs='{"up"}', ForeignTarget='"none"', Local='FALSE', Rels=ALL_RELS)
 NODES = dict(Issuers='{"i1"}', MaxCreds=2, MaxTicks=1, RenewCreatedAt='TRUE', RevForgeKinds='{"othersigner"}', Srcs='{"up", "down", "forged-set", "forged-clear"}')
-SERVE = dict(Issuers='{"i1"}', Nodes='{"n1"}', MaxCreds=2, MaxTicks=6, Kinds='{"sl"}', RevForgeKinds='{}', Srcs='{"up", "down"}', ForeignTarget='"none"')
+SERVE = dict(Issuers='{"i1"}', Nodes='{"n1"}', MaxCreds=2, MaxTicks=6, Kinds='{"sl"}', RevForgeKinds='{}', Srcs='{"up", "down"}', ForeignTarget='"none"',
+             Servers='{"s1"}')
 ALLOC = dict(Nodes='{}', MaxCreds=4, MaxTicks=0, MaxForge=0, Kinds='{"sl"}', RevForgeKinds='{}', Srcs='{"up"}', ForeignTarget='"none"',
              Local='FALSE', Procs='{"p1", "p2"}')
 GEN = dict(ListIssuerChecked='FALSE', RenewCreatedAt='FALSE', Hist='TRUE')   # descriptive: F15 (the issuer of a fetched list is not compared)
-TRACE = dict(MaxTicks=99, MaxForge=99, RenewCreatedAt='FALSE', Hist='FALSE')
+TRACE = dict(MaxTicks=99, MaxForge=99, RenewCreatedAt='FALSE', Hist='FALSE', Rels=ALL_RELS, Servers='{"s1", "s2"}')
 
 def _inv(*names):
     return "INVARIANTS " + " ".join(names) + "\n"
@@ -47,7 +49,7 @@ CFGS = {
     "status.quick": ("status lists, prescriptive (all checks made): 2 issuers, 1 remote node, page roll-over (B=2)", CHECK, STATUS),
     "net.quick": ("network revocations, prescriptive: 2 issuers, 2 nodes, every forged document class", CHECK, NET),
     "nodes.quick": ("two remote nodes, both revocation mechanisms, one issuer", CHECK, NODES),
-    "serve.quick": ("serving over a long time: re-signing before expiry", CHECK, SERVE),
+    "serve.quick": ("serving over a long time: re-signing before expiry; a GET split at its transaction races with Revoke / other GETs / time", CHECK, SERVE),
     "alloc.quick": ("Entry() split at the row lock: two concurrent transactions, retry on duplicate key (TLC only)", CHECK, ALLOC),
     "status.thorough": ("status lists at the full bounds: 2 issuers, 2 remote nodes, 4 credentials, roll-over at B=3 (symmetry over issuers and nodes)",
                         "SYMMETRY Sym\n" + CHECK,
@@ -57,7 +59,10 @@ CFGS = {
                        dict(Nodes='{"n1"}', RevForgeKinds='{"othersigner"}', MaxTicks=1, RenewCreatedAt='TRUE')),
     "net.thorough": ("network revocations, 4 credentials", CHECK, dict(NET, MaxCreds=4)),
     "nodes.thorough": ("two remote nodes, both mechanisms, roll-over", CHECK, dict(NODES, MaxCreds=3, MaxTicks=2)),
-    "serve.thorough": ("serving over a long time (8 ticks = two validity periods)", CHECK, dict(SERVE, MaxTicks=8, MaxCreds=3)),
+    "serve.thorough": ("serving over a long time, 3 credentials (page roll-over), a GET split at its transaction", CHECK,
+                       dict(SERVE, MaxTicks=6, MaxCreds=3)),
+    "serve2.thorough": ("serving over a long time (8 ticks = two validity periods), TWO GETs split at their transactions", CHECK,
+                        dict(SERVE, MaxTicks=8, MaxCreds=2, Servers='{"s1", "s2"}')),
     "alloc.thorough": ("Entry() split at the row lock: three concurrent transactions, 5 entries", CHECK, dict(ALLOC, MaxCreds=5, Procs='{"p1", "p2", "p3"}')),
     # --- deviation configs: the named check switched off MUST violate the named invariant ---------------------
     "dev.listissuer": ("deviation F15: issuer of the fetched list not compared -> a list issued by another party revokes", _inv("IssuerOnly"),
@@ -69,6 +74,9 @@ CFGS = {
                       dict(NET, MaxCreds=1, RevIssuerChecked='FALSE')),
     "dev.resign": ("deviation: the list is not re-signed before it expires", _inv("ServedListValidAndFresh"), dict(SERVE, ResignBeforeExpiry='FALSE')),
     "dev.rowlock": ("deviation: Entry() without the row lock", _inv("SlotsUnique"), dict(ALLOC, RowLock='FALSE')),
+    "dev.reread": ("deviation: the re-sign transaction of a GET uses the revocations read BEFORE the transaction -> a set bit is cleared",
+                   "PROPERTIES BitsMonotone\n", dict(SERVE, ResignRereads='FALSE')),
+    "dev.reread2": ("deviation: .. and the revoked credential verifies again", _inv("RevokedIsPermanent"), dict(SERVE, ResignRereads='FALSE')),
     "reach.dupretry": ("reachability: the retry-on-duplicate-key path of Entry() is taken in the model (the property is EXPECTED to be violated)",
                        "PROPERTIES NeverDuplicate\n", ALLOC),
     # --- behaviour generation (descriptive model) ---------------------------------------------------------
@@ -76,8 +84,10 @@ CFGS = {
     "gen.status.quick": ("behaviour generation, status lists, quick tier (one tick)", _inv("Emit"), dict(STATUS, MaxTicks=1, **GEN)),
     "gen.net": ("behaviour generation, network revocations incl. every forged document class", _inv("Emit"), dict(NET, MaxCreds=2, MaxForge=1, **GEN)),
     "gen.nodes": ("behaviour generation, two nodes and both mechanisms", _inv("Emit"), dict(NODES, **GEN)),
-    "gen.sim": ("behaviour generation by simulation at the full bounds (2 issuers, 2 nodes, roll-over at B=3, both mechanisms, all forgeries)",
-                _inv("Emit"), dict(MaxCreds=5, B=3, MaxTicks=5, MaxForge=2, **GEN)),
+    "gen.serve": ("behaviour generation, GETs split at their transaction racing with Revoke, other GETs and time", _inv("Emit"),
+                  dict(SERVE, MaxTicks=4, **GEN)),
+    "gen.sim": ("behaviour generation by simulation at the full bounds (2 issuers, 2 nodes, roll-over at B=3, both mechanisms, all forgeries, split GETs)",
+                _inv("Emit"), dict(MaxCreds=5, B=3, MaxTicks=5, MaxForge=2, Rels=ALL_RELS, Servers='{"s1"}', **GEN)),
     "gen.alloc": ("witnesses of the split Entry transaction (documentation of the schedules TLC covers)", _inv("EmitAlloc"), dict(ALLOC, Hist='TRUE')),
     # --- trace validation ---------------------------------------------------------------------------------------
     "trace.b2.lic0": ("trace validation, B=2, descriptive (F15 open)", TRACE_TAIL, dict(TRACE, MaxCreds=4, B=2, ListIssuerChecked='FALSE')),
@@ -88,7 +98,7 @@ CFGS = {
 # expected outcome of the deviation configs
 DEVIATIONS = {"dev.listissuer": "IssuerOnly", "dev.listissuer2": "RevokedIsPermanent", "dev.listsubject": "EntryOnlyFromNamedList",
               "dev.revissuer": "IssuerOnly", "dev.resign": "ServedListValidAndFresh", "dev.rowlock": "SlotsUnique",
-              "reach.dupretry": "NeverDuplicate"}
+              "reach.dupretry": "NeverDuplicate", "dev.reread": "BitsMonotone", "dev.reread2": "RevokedIsPermanent"}
 
 
 def cfg_name(key):
@@ -123,38 +133,81 @@ def _strs(setlit):
 # ------------------------------------------------------------------------------------------------ generation
 
 def features(b):
-    """What a behaviour exercises: used to pick a diverse sample."""
+    """What a behaviour exercises (atomic features): used to pick a sample that covers every feature seen in any witness."""
     f = set()
-    revoked, issued = set(), {}
+    revoked, kinds, lists = set(), {}, {}
+    pending = {}          # server -> [list, raced by a revocation on the same list, raced by a tick, raced by another GET]
     for s in b:
         a = s["a"]
         if a == "Issue":
-            issued[s["c"]] = s
+            kinds[s["c"]] = s["kind"]
+            lists[s["c"]] = (s["i"], s["page"])
             f.add(("issue", s["kind"], s["page"] > 1))
         elif a in ("RevokeStatus", "RevokeNet"):
+            if s["res"] == "ok":
+                for p in pending.values():
+                    if p[0] == lists.get(s["c"]):
+                        p[1] = True
             revoked.add(s["c"])
             f.add((a, s["res"]))
         elif a == "Deliver":
-            f.add(("deliver", s["k"], s["c"] in revoked))
+            f.add(("deliver", s["k"], s.get("r", ""), kinds.get(s["c"]), s["c"] in revoked))
         elif a == "Verify":
-            f.add(("verify", s["src"], s["v"], s["c"] == "fx", s["c"] in revoked))
+            f.add(("verify", s["src"], s.get("v"), s["c"] == "fx", s["c"] in revoked))
         elif a == "VerifyLocal":
-            f.add(("local", s["v"]))
+            f.add(("local", s.get("v")))
+        elif a == "ServeBegin":
+            f.add(("servebegin", s["res"]))
+            if s["res"] == "resign":
+                for p in pending.values():
+                    if p[0] == (s["i"], s["p"]):
+                        p[3] = True
+                pending[s["s"]] = [(s["i"], s["p"]), False, False, False]
+        elif a == "ServeResign":
+            p = pending.pop(s["s"], None)
+            if p:
+                f.add(("serveresign", "revoke-between" if p[1] else "", "tick-between" if p[2] else "", "get-between" if p[3] else ""))
+        elif a == "Serve":
+            for p in pending.values():
+                if p[0] == (s["i"], s["p"]):
+                    p[3] = True
+            f.add((a,))
+        elif a == "Tick":
+            for p in pending.values():
+                p[2] = True
+            f.add((a,))
         else:
             f.add((a,))
-    return tuple(sorted(f, key=str))
+    for p in pending.values():   # GETs still standing before their transaction: the closing sweep lets them finish
+        f.add(("serveresign", "revoke-between" if p[1] else "", "tick-between" if p[2] else "", "get-between" if p[3] else ""))
+    return f
 
 
 def sample_diverse(behs, n, rnd):
-    """Round-robin over feature buckets (rarest buckets first), deterministic for a seed."""
+    """Deterministic for a seed. First a greedy cover: every atomic feature that occurs in any behaviour occurs in the sample
+    (as long as n allows); then round-robin over the distinct feature sets, rarest first."""
+    behs = sorted(behs, key=lambda b: json.dumps(b, sort_keys=True))
+    rnd.shuffle(behs)
+    feats = [features(b) for b in behs]
+    out, used, covered = [], set(), set()
+    todo = sorted(set().union(*feats) if feats else [], key=str)
+    for ft in todo:
+        if len(out) >= n:
+            break
+        if ft in covered:
+            continue
+        cands = [i for i in range(len(behs)) if ft in feats[i] and i not in used]
+        if not cands:
+            continue
+        best = max(cands, key=lambda i: (len(feats[i] - covered), -len(behs[i])))
+        used.add(best)
+        out.append(behs[best])
+        covered |= feats[best]
     buckets = {}
-    for b in behs:
-        buckets.setdefault(features(b), []).append(b)
+    for i, b in enumerate(behs):
+        if i not in used:
+            buckets.setdefault(tuple(sorted(feats[i], key=str)), []).append(b)
     keys = sorted(buckets, key=lambda k: (len(buckets[k]), str(k)))
-    for k in keys:
-        buckets[k].sort(key=lambda b: json.dumps(b, sort_keys=True))
-        rnd.shuffle(buckets[k])
-    out = []
     while len(out) < n and keys:
         for k in list(keys):
             if buckets[k]:
@@ -166,12 +219,39 @@ def sample_diverse(behs, n, rnd):
     return out
 
 
+FORGED_CLASSES = [(k, r) for k in ("othersigner", "otherissuer") for r in ("unrelated", "prefix", "parent", "extension")] + \
+                 [("wrongkey", "unrelated"), ("resubject", "unrelated")]
+
+
+def concretise_forgeries(b):
+    """The model's 'revocation made by another party' is an abstract class. Every forged delivery of a behaviour is replaced by the
+    deliveries of ALL concrete classes: document kind x textual relation of the forger's DID to the issuer's DID (lookalike parties:
+    unrelated / a prefix / the parent / an extension). All of them are behaviours of the model (Deliver(c, k, r, n))."""
+    out = []
+    for s in b:
+        if s["a"] == "Deliver" and s["k"] != "genuine":
+            out += [dict(s, k=k, r=r) for k, r in FORGED_CLASSES]
+        else:
+            out.append(s)
+    return out
+
+
 def with_sweep(b, consts):
-    """Closing sweep: the state the behaviour leads to is observed completely - every credential is verified on every node
-    without a usable source (a fresh copy is used, a stale one cannot be refreshed), which is CurVerdict of the model."""
+    """Closing sweep: GETs still standing before their transaction finish; then the state the behaviour leads to is observed completely -
+    every credential is verified on every node without a usable source (a fresh copy is used, a stale one cannot be refreshed),
+    which is CurVerdict of the model - and every list is served once more."""
     out = list(b)
+    pend = []
+    for s in b:
+        if s["a"] == "ServeBegin" and s["res"] == "resign":
+            pend.append(s["s"])
+        elif s["a"] == "ServeResign":
+            pend.remove(s["s"])
+    for sv in pend:
+        out.append(dict(a="ServeResign", s=sv, sweep=True))
     creds = [s["c"] for s in b if s["a"] == "Issue"]
     kinds = {s["c"]: s["kind"] for s in b if s["a"] == "Issue"}
+    lists = sorted({(s["i"], s["page"]) for s in b if s["a"] == "Issue" and s["kind"] == "sl"})
     if consts["ForeignTarget"] != '"none"':
         creds.append("fx")
         kinds["fx"] = "foreign"
@@ -182,13 +262,34 @@ def with_sweep(b, consts):
         for c in creds:
             if kinds[c] != "net":
                 out.append(dict(a="VerifyLocal", c=c, sweep=True))
+    for i, p in lists:
+        out.append(dict(a="Serve", i=i, p=p, sweep=True))
+    return out
+
+
+def paused_revoke_variants(b):
+    """Schedules in which a Revoke() has made everything it does BEFORE its transaction, then another operation on the same issuer
+    runs, then the Revoke() goes on. For the model (Revoke reads nothing it depends on before its transaction) this is the
+    behaviour 'other operation; Revoke' itself, so the variant is validated and judged like the original."""
+    lists = {s["c"]: (s["i"], s["page"]) for s in b if s["a"] == "Issue" and s["kind"] == "sl"}
+    out = []
+    for k in range(1, len(b)):
+        x, y = b[k], b[k - 1]
+        if x["a"] != "RevokeStatus" or x["c"] not in lists or x.get("phase"):
+            continue
+        i = lists[x["c"]][0]
+        same = (y["a"] == "RevokeStatus" and lists.get(y["c"], ("", 0))[0] == i) or (y["a"] == "Serve" and y["i"] == i) or \
+               (y["a"] == "Issue" and y["kind"] == "sl" and y["i"] == i and y["c"] != x["c"]) or (y["a"] == "ServeResign")
+        if same and not y.get("phase"):
+            out.append(b[:k - 1] + [dict(x, phase="begin"), y, dict(x, phase="end")] + b[k + 1:])
     return out
 
 
 def generate(tier, seed, rnd):
     """-> list of (gen cfg key, [behaviours]) plus statistics."""
     quick = tier == "quick"
-    plan = [("gen.status.quick" if quick else "gen.status", 70 if quick else 700), ("gen.net", 25 if quick else 200), ("gen.nodes", 25 if quick else 300)]
+    plan = [("gen.status.quick" if quick else "gen.status", 60 if quick else 700), ("gen.net", 20 if quick else 200),
+            ("gen.nodes", 25 if quick else 300), ("gen.serve", 30 if quick else 300)]
     groups, stats = [], {}
     for key, n in plan:
         g = vlib.tlc("MCRevocation", cfg_name(key), workers=WORKERS, timeout=900)
@@ -198,13 +299,18 @@ def generate(tier, seed, rnd):
         stats[key] = dict(states=g.distinct, witnesses=len(wit), wall_s=round(g.wall, 1))
         chosen = sample_diverse(wit, n, rnd)
         consts = cfg_consts(key)
-        groups.append((key, [with_sweep(b, consts) for b in chosen]))
+        full = [with_sweep(concretise_forgeries(b), consts) for b in chosen]
+        extra = [v for b in full for v in paused_revoke_variants(b)]
+        rnd.shuffle(extra)
+        stats[key]["paused_revoke_variants"] = len(extra[:max(3, n // 5)])
+        groups.append((key, full + extra[:max(3, n // 5)]))
     nsim = 40 if quick else 400
     s = vlib.tlc("MCRevocation", cfg_name("gen.sim"), workers=1, simulate="num=%d" % nsim, depth=45 if quick else 60, seed=seed, timeout=900)
     if s.error and "timeout" in s.error:
         raise Inconclusive(s.error)
     sim = vlib.dedupe_maximal(s.printed)
     sim.sort(key=lambda b: json.dumps(b, sort_keys=True))
+    sim = [with_sweep(b, dict(cfg_consts("gen.sim"), Nodes="{}", Local="FALSE", ForeignTarget='"none"')) for b in sim]   # only: pending GETs finish, lists served
     stats["gen.sim"] = dict(simulated=len(sim), wall_s=round(s.wall, 1))
     groups.append(("gen.sim", sim))
     return groups, stats
@@ -271,7 +377,7 @@ def run(prop, tier, seed, replay=None):
     # 1. the prescriptive design satisfies C11 (exhaustive, family by family)
     states = transitions = 0
     models, cover = [], {}
-    fams = ["status", "net", "nodes", "serve", "alloc"] + ([] if quick else ["mixed"])
+    fams = ["status", "net", "nodes", "serve", "alloc"] + ([] if quick else ["mixed", "serve2"])
     for fam in fams:
         key = "%s.%s" % (fam, "quick" if quick or fam == "" else "thorough")
         m = vlib.tlc("MCRevocation", cfg_name(key), workers=WORKERS, timeout=1500, coverage=not quick)
@@ -296,7 +402,8 @@ def run(prop, tier, seed, replay=None):
             deviations[key] = d.violation
             if d.violation != want:
                 raise Inconclusive("deviation config %s: expected a violation of %s, got %s %s" % (key, want, d.violation, d.error))
-        never = [a for a in ("IssueObs", "RevokeStatus", "RevokeNet", "Serve", "DeliverObs", "VerifyL", "VerifyLocal", "Tick", "EntryRead", "EntryWrite")
+        never = [a for a in ("IssueObs", "RevokeStatus", "RevokeNet", "Serve", "ServeBegin", "ServeResign", "DeliverObs", "VerifyL", "VerifyLocal", "Tick",
+                             "EntryRead", "EntryWrite")
                  if cover.get(a, 0) == 0]
         if never:
             raise Inconclusive("vacuity: actions never taken in the model: %s" % never)
